@@ -20,6 +20,7 @@ GROUP = dict(
         dict(id='C01.arith.pop_version', enforce='Q_pop_version_for_index', props=['C01']),
         dict(id='C01.arith.lemma', harness='lemma_ticket_arith', props=['C01']),
         dict(id='C01.publish_and_wake', enforce='Q_SlotFutex_set_version_and_wakeup_waiters', props=['C01', 'C02']),
+        dict(id='C02.wait', enforce='Q_SlotFutex_wait_until_reach_expected_version__1', loops=True, props=['C02', 'C01']),
         dict(id='C01.deal.push', enforce='Q_deal__1_1_1_CbRef', replace=['Q_SlotFutex_wait_until_reach_expected_version__1'], props=['C01', 'C02']),
         dict(id='C01.deal.pop', enforce='Q_deal__1_1_0_CbRef', replace=['Q_SlotFutex_wait_until_reach_expected_version__1'], props=['C01', 'C02']),
     ],
